@@ -326,6 +326,24 @@ class R:
     def __rpow__(self, b):
         return upow(R(b), self)
 
+    def __mod__(self, o):
+        o = self._co(o)
+        if o is None:
+            return NotImplemented
+        if self.is_const() and o.is_const():
+            return R(self.v % o.v)
+        # Python semantics for a positive modulus: x - m * floor(x / m)
+        q = z3.ToReal(z3.ToInt(zt(self) / zt(o)))
+        return R(zt(self) - zt(o) * q)
+
+    def __floordiv__(self, o):
+        o = self._co(o)
+        if o is None:
+            return NotImplemented
+        if self.is_const() and o.is_const():
+            return R(self.v // o.v)
+        return R(z3.ToReal(z3.ToInt(zt(self) / zt(o))))
+
     # comparisons -> symbolic booleans (constants fold)
     def _cmp(self, o, op):
         o = self._co(o)
@@ -353,7 +371,8 @@ class R:
     def __ne__(self, o):
         return self._cmp(o, lambda a, b: a != b)
 
-    __hash__ = None
+    def __hash__(self):
+        return id(self)
 
     def __bool__(self):
         if self.is_const():
@@ -516,7 +535,8 @@ class C:
     def imag(self):
         return self.im
 
-    __hash__ = None
+    def __hash__(self):
+        return id(self)
 
     def __repr__(self):
         return "C(%s, %s)" % (self.re.v, self.im.v)
